@@ -4,8 +4,8 @@ import json, os, sys
 VERIF = os.path.dirname(os.path.dirname(os.path.abspath(__file__)))
 
 CLAIMS = {
- "C01": ("other", "MIR dataflow: normalizer routing, sibling agreement, representation-only arms, window bounds; finite-domain evaluation of the ASCII normalizers (256 bytes x config) and of every two-byte case-insensitive search",
-         "Decides structural necessary conditions of the fuzzy accept/reject relation: every haystack/needle comparison goes through the one normalizer, the two normalizer siblings agree (as complete functions of byte x config for AsciiChar), no arm decides by representation alone, ASCII prefilter searches exactly the pre-images under AsciiChar::normalize, candidate windows are h-n+1, and a never-rejecting scorer is reached only behind a complete decider (completeness of each prefilter derived from its body: a walk over needle[1..] with a None exit), the greedy matcher reaches its scorer only through such a walk unless both strings are ASCII, the optimal matcher's window is the full prefilter window, cross-type character equality is exact, to_lower_case / is_upper_case are the fold-table lookup. Does not decide the iff itself.", "§3 C01"),
+ "C01": ("other", "MIR dataflow: normalizer routing, sibling agreement, representation-only arms, window bounds; finite-domain evaluation of the ASCII normalizers (256 bytes x config) and of every two-byte case-insensitive search, call-site contract of the greedy matcher's scan start (carrier-resolved alternatives)",
+         "Decides structural necessary conditions of the fuzzy accept/reject relation: every haystack/needle comparison goes through the one normalizer, the two normalizer siblings agree (as complete functions of byte x config for AsciiChar), no arm decides by representation alone, ASCII prefilter searches exactly the pre-images under AsciiChar::normalize, candidate windows are h-n+1, and a never-rejecting scorer is reached only behind a complete decider (completeness of each prefilter derived from its body: a walk over needle[1..] with a None exit), the greedy matcher reaches its scorer only through such a walk unless both strings are ASCII, the optimal matcher's window is the full prefilter window, cross-type character equality is exact, to_lower_case / is_upper_case are the fold-table lookup. Does not decide the iff itself.", "§3 C01 Also: code-point calls of the greedy matcher pass end = start + 1."),
  "C02": ("other", "MIR method-set + path rules on the indices vector, twin comparison of _match/_indices bodies, decision tables of the DP cell updates (back-pointer strictness), normalizer routing of the index re-walk",
          "Decides: indices vector is append-only, nothing appended on a path that returns None, INDICES-guarded code cannot affect the score, _match/_indices twins agree, back-pointers are set exactly when the match branch wins strictly, the index re-walk compares normalized characters, the greedy forward scan starts behind the character needle[0] consumed (call-site contract end >= start+1 followed through callers), exact character equality, fold lookup. Does not decide index validity for all inputs.", "§3 C02"),
  "C03": ("other", "const evaluation vs fzf scheme, exhaustive abstract evaluation of bonus_for over 7x7 classes, loop-carried-state rule, overflow obligations (interval domain), decision tables of the DP cell updates",
@@ -14,13 +14,13 @@ CLAIMS = {
          "Decides: every 'cannot get better' early exit compares against a value that dominates every bonus_for result in every constructible Config; prefix preference is additive, non-negative and bounded; the DP cell recurrence; no bonus data cached from a reassignable configuration; exact character equality. Optimality itself is not decided.", "§3 C04 Also: the loop-carried prefix bonus decays on every path through a first-row column."),
  "C05": ("other", "affine forms of candidate windows, prefilter-arm agreement, per-path polynomial windows of exact/prefix/postfix with whitespace trimming, normalizer routing of every comparison in the exact/substring scanners",
          "Decides: candidate windows are h-n+p, prefilter arms agree on (prefix searched, prefilter length, window), trimming and bounds of exact/prefix/postfix on every decision path, every comparison with the needle is normalized, best-bonus arguments, every substring result is produced by the substring scanners, exact character equality. The relations themselves are not decided.", "§3 C05"),
- "C06": ("other", "who-may-call + source sets for unchecked reads, ordered-list typestate, comparator as a decision function over the orderings of its documented keys, guard dominance, landing of every counted placeholder in the match list",
-         "Decides the clauses on which memory safety of reading a snapshot rests: unchecked item reads are fed only by indices that passed a checked lookup, in-flight list producers preserve order, placeholder accounting, the comparator equals the documented order on all consistent key orderings, snapshot-update guard, every snapshot field copied from one run, hand-written clone_from copies every field. Not the set equality under all interleavings.", "§3 C06"),
+ "C06": ("other", "who-may-call + source sets for unchecked reads, ordered-list typestate, comparator as a decision function over the orderings of its documented keys, guard dominance, landing of every counted placeholder in the match list, stale-read rule on the match-list test in Worker::run",
+         "Decides the clauses on which memory safety of reading a snapshot rests: unchecked item reads are fed only by indices that passed a checked lookup, in-flight list producers preserve order, placeholder accounting, the comparator equals the documented order on all consistent key orderings, snapshot-update guard, every snapshot field copied from one run, hand-written clone_from copies every field. Not the set equality under all interleavings.", "§3 C06 Also: nothing rewrites the match list between a test of its contents and the branch that depends on it."),
  "C08": ("other", "atomic op inventory, dominance of initialisation over publication, read gating, CAS shape",
          "Decides: index reservation is a single RMW and the only writer of the counter; slot initialisation dominates publication and nothing touches the slot afterwards; lookups read a slot only under active==true and answer None only for an unallocated bucket or a clear flag; lying-iterator guard; the bucket installed by the CAS has its flags initialised before publication and is not written through afterwards; Location::of is a bijection onto the slots; the entry stride is a pure function of (T, cols). Not linearizability.", "§3 C08"),
  "C09": ("other", "ordering table over every atomic operation (resolved constants), confinement of UnsafeCell matchers, Send/Sync bounds",
          "Decides that every happens-before edge the design relies on is declared with a sufficient ordering, that the per-thread matcher scratch is confined to the pool, and that flag-skipping readers are fed only by indices that passed a flag-acquiring read. Not race freedom over all executions.", "§3 C09"),
- "C10": ("other", "sibling affine extents of layout vs raw views, guard dominance, overflow obligations, truncating-cast inventory, reaching-definition rule on the start of the final last-row scan (not a constant)",
+ "C10": ("other", "sibling affine extents of layout vs raw views, guard dominance, overflow obligations, truncating-cast inventory, reaching-definition rule on the start of the final last-row scan (not a constant), extents matched by element type when the carve-up is restructured",
          "Decides: slab view extents equal layout extents; the four slab guards dominate the unsafe carve-up; u16 score arithmetic obligations; truncating casts behind their guards; MatrixLayout values only from MatrixLayout::new; no matcher state besides config and slab (a configuration-derived cache is a violation). Not totality/history independence in general.", "§3 C10 Also: the final scan over current_row does not start at a constant column (cells below the last row's first written column are leftovers of earlier calls)."),
  "C11": ("other", "loop-exit / iterator-pipeline rule on Drop and Bucket::dealloc, who-may-call dealloc, control dependence of drops on active, unwind-graph order of callback vs move",
          "Decides: Drop visits every bucket and dealloc every entry (for-loop or adaptor-chain form); who may free; drops gated on the active flag; value moved into the slot only after the fallible callback; no leak primitives. Not exactly-once over all histories.", "§3 C11"),
@@ -30,7 +30,7 @@ CLAIMS = {
          "Decides the pairing discipline of the wake-up protocol and that the callback handed to worker and injectors is the user's (a wrapper must forward on every path), and that only tick_inner / restart / Drop cancel a run; one genuine defect (lost wake-up) is a recorded known finding. Not liveness over schedules.", "§3 C13 If the tick/tick_inner structure is gone the tick clauses are decided on the enumerated paths of the flattened tick; differences that no protocol rule classifies are INCONCLUSIVE."),
  "C14": ("other", "decision-table extraction of Atom::parse evaluated on a complete finite abstraction of its input; finite transducer of the escape loop vs the ASCII replace; decision table of the word splitter; iterator-pipeline twins of parse/reparse",
          "Decides: the marker grammar of Atom::parse (text, kind, negative, append_dollar for every input, via a witness domain that is complete for the bounded inspection depth); the word splitter's table; that the ASCII and the non-ASCII half of Atom::new_inner unescape identically (`\\ ` → space, other backslashes kept); parse/reparse run the same pipeline on every call (no return in front of it except on equality of the raw text); Pattern::new never reaches the marker parser; flag sources for smart case; is_upper_case / to_lower_case are the fold-table lookup. Smart-case/normalization decisions over all strings are not decided.", "§3 C14"),
- "C15": ("other", "dominance of config stores, exhaustive dispatch-table extraction, negation shape, sum/propagate CFG shape, stable sort callee",
+ "C15": ("other", "dominance of config stores, exhaustive dispatch-table extraction, negation shape, sum/propagate CFG shape, stable sort callee; INCONCLUSIVE when the scoring is re-architected (no dispatch on the receiver's own kind)",
          "Decides the compositional shape: per-atom config stores dominate every matcher call and are the only writes to the matcher's configuration; kind→function tables exhaustive and agreeing; negation; ?-propagation; total, position-preserving iteration over atoms / zipped columns; match_list drops an item only on the score's None; stable sort with Reverse(score).", "§3 C15"),
  "C16": ("proof", "table algebra over const-evaluated tables for all 1,112,064 scalars x 4 configurations + dispatch extraction from decision paths + fold-lookup semantics (found / not found)",
          "Exhaustive over a finite domain: the four tables are read from the compiler's const evaluator, the dispatch intervals and the fold lookup from MIR decision paths; sortedness, idempotence, ASCII fixed points, block confinement, NFKD and simple-case-folding oracles are checked for every scalar; every haystack-character comparison in the matcher is routed through the one normalizer.", "§3 C16"),
@@ -40,7 +40,7 @@ CLAIMS = {
          "par_sort.rs is shown to be the vetted reference algorithm function by function, plus a separately checked cancellation delta (result tainted only by the flag; cancel points only between partition steps in safe code; comparator chain is the documented total order).", "§3 C18"),
  "C19": ("other", "control dependence + same-value rules in the tick call tree, tick as a boolean function of its phases per decision path, Snapshot::update guard/order discipline; when tick is re-architected: path traces of the flattened tick (protocol rules per path + equality with the reference tree's traces)",
          "Decides: every snapshot mutation in tick is guarded by the value returned as changed; changed ⊇ OR of the phases, running ⊇ the last phase's on every return path; running is the value that guards the spawn; failed-lock exit returns running:true; update guards and was_canceled discipline; Snapshot::update copies every field on every path; only tick_inner / restart / Drop raise `canceled`; hand-written clone_from copies every field; status lattice shape. Not the item accounting under concurrency.", "§3 C19 If the tick/tick_inner structure is gone the tick clauses are decided on the enumerated paths of the flattened tick; differences that no protocol rule classifies are INCONCLUSIVE."),
- "C20": ("other", "holder inventory (fields and by-value closure captures), enum decision table of matcher_item_refs, per-path polynomial of active_injectors, who-writes on state transitions, restart installs a fresh stream; per-state polynomial identity of the flattened active_injectors when the table is folded in",
+ "C20": ("other", "holder inventory (fields and by-value closure captures), enum decision table of matcher_item_refs, per-path polynomial of active_injectors, who-writes on state transitions, restart installs a fresh stream; per-state polynomial identity of the flattened active_injectors when the table is folded in; INCONCLUSIVE when the State enum is redesigned",
          "Decides the accounting argument of the subtraction: the Arc holders, three subtracted terms on every path, matcher_item_refs table = 1 + [worker points at current stream], transitions that justify it.", "§3 C20"),
 }
 
